@@ -13,6 +13,10 @@
     `C01_*_counterexample` below exhibit the witness and the harness reports the finding.
   * `n.notNullable = false` in `C01_valid_reflected`: the node has not been through an earlier
     annotation pass that set `not_nullable` (only `(not ...)` ever sets it).
+  * an option word outside the documented vocabulary (`(transfer bogus)`, `(scope bogus)`) is invalid
+    everywhere: the warning comes from the parser's validation of the part (`validateList … = 1`),
+    the transformer leaves the attribute alone (`C01_invalid_warns_unchanged_transfer`,
+    `C01_invalid_warns_unchanged_scope`; guards of fix 0c5d020).
   * `C01_valid_reflected` speaks about the node as the annotation pass leaves it and the writer's
     attribute list for it; pass 3 (callback autodetection) afterwards may overwrite
     scope/closure/destroy/transfer/nullable of callback and user-data parameters
@@ -31,11 +35,11 @@ open GIVerif.Py
 theorem C01_tables_shape :
     Gen.ParamAnn.transformerLiterals =
       [("_apply_annotations_array", ["*", "0", "1"]), ("_apply_annotations_element_type", []),
-       ("_apply_annotations_param_callback", []), ("_apply_annotations_param_closure", []),
+       ("_apply_annotations_param_callback", ["in:SCOPE_OPTIONS"]), ("_apply_annotations_param_closure", []),
        ("_apply_annotations_param_ret_common", ["**", "Gio.AsyncReadyCallback", "Gio.Cancellable"]),
-       ("_apply_transfer_annotation", ["GLib.Variant", "GObject.Closure"]), ("_check_array_element_type", []),
+       ("_apply_transfer_annotation", ["GLib.Variant", "GObject.Closure", "in:TRANSFER_OPTIONS"]), ("_check_array_element_type", ["in:BASIC_GIR_TYPES", "in:POINTER_TYPES"]),
        ("_check_instance_parameter", ["destroy", "free"]), ("_get_transfer_default_param", []),
-       ("_is_pointer_type", ["*"]),
+       ("_is_pointer_type", ["*", "in:BASIC_TYPES"]),
        ("_pass3_callable_callbacks", ["GLib.DestroyNotify", "Gio.AsyncReadyCallback", "attr:Gio.AsyncReadyCallback", "data"]),
        ("_pass3_callable_throws", ["GError**"])]
     ∧ Gen.ParamAnn.writerLiterals =
@@ -71,8 +75,7 @@ theorem C01_valid_reflected (env : Env) (f : Bool) (all : List Node) (part : Str
     (hcs : containerStep env (if f then .part part else .parent) part all (dirStep n a t1.1).dir t1.1 a = .ok cs)
     (hp1 : isPointerType false (dirStep n a t1.1).dir t1.1 = .ok p1)
     (hp2 : isPointerType false (dirStep n a t1.1).dir cs.1 = .ok p2)
-    (ann : Ann) (hpres : Present a ann) (hv : Valid ann (siteOf n a t1.1 p1 p2) = true)
-    (hne : ∀ m, ann = .transfer m → m ≠ []) :
+    (ann : Ann) (hpres : Present a ann) (hv : Valid ann (siteOf n a t1.1 p1 p2) = true) :
     Satisfies l (Expected ann (siteOf n a t1.1 p1 p2)) := by
   obtain ⟨t1', tr, cs', nl, e1, e2, e3, e4, hnode, _, _⟩ := commonStep_ok h
   simp only [Option.getD_some] at e1 e2 e3 e4 hnode
@@ -204,8 +207,11 @@ theorem C01_valid_reflected (env : Env) (f : Bool) (all : List Node) (part : Str
         exact written_has_transfer hw (G "container") (by simp [htr]) (by decide)
       · simp only [Valid, siteOf, if_neg hf, if_neg hc] at hv
         split at hv
-        · have := transferStep_other false (dirStep n a t1.1).dir t1.1 (dirStep n a t1.1).tr a.array.isSome m p1
-            (by rw [hF]; exact hf) (by rw [hC]; exact hc) hp1
+        · rename_i hm
+          have hk : knownTransfer m = true := by rcases hm with rfl | rfl <;> decide
+          have hne : m ≠ [] := by rcases hm with rfl | rfl <;> decide
+          have := transferStep_other false (dirStep n a t1.1).dir t1.1 (dirStep n a t1.1).tr a.array.isSome m p1
+            hk (by rw [hF]; exact hf) (by rw [hC]; exact hc) hp1
           have hcond : (!p1 && !nodeTypeIsString t1.1 && !t1.1.isContainer && !isCompoundLike t1.1.cls) = false := by
             revert hv
             generalize nodeTypeIsString t1.1 = s1
@@ -221,7 +227,7 @@ theorem C01_valid_reflected (env : Env) (f : Bool) (all : List Node) (part : Str
           have hexp : Expected (.transfer m) (siteOf n a t1.1 p1 p2) = .has (G "transfer-ownership") m := by
             simp [Expected, hf]
           rw [hexp]
-          exact written_has_transfer hw m (by simp [htr]) (hne m rfl)
+          exact written_has_transfer hw m (by simp [htr]) hne
         · cases hv
 
 /-- **Invalid nullability annotations warn and change nothing.**  `(nullable)` / `(allow-none)` on a
@@ -263,42 +269,64 @@ theorem C01_invalid_warns_unchanged_lift (env : Env) (f : Bool) (all : List Node
   simp [hw]
 
 /-- **Invalid transfer annotations warn and change nothing**: whenever the rule table rejects a
-    well-formed transfer mode at the site, the step reports it and keeps the transfer the node had
-    after the direction step (`cur`). -/
+    single-option transfer annotation at the site — a known mode on a site where it does not apply, or
+    ANY other word — the step keeps the transfer the node had after the direction step (`cur`), and a
+    warning is emitted: by the step itself (`w = true`) for the known modes, by the parser's
+    validation of the part for every unknown word (the transformer then returns silently). -/
 theorem C01_invalid_warns_unchanged_transfer (n : Node) (a : Anns) (ty1 : Ty) (p1 p2 : Bool) (m : Str) (cur : Option Str)
     (hr : n.isRet = false)
     (hp1 : isPointerType false (dirStep n a ty1).dir ty1 = .ok p1)
-    (hm : m = G "floating" ∨ m = G "container" ∨ m = G "none" ∨ m = G "full")
     (hv : Valid (.transfer m) (siteOf n a ty1 p1 p2) = false) :
-    transferStep n.isRet (dirStep n a ty1).dir ty1 cur (some [m]) a.array.isSome = .ok (cur, true) := by
+    ∃ w, transferStep n.isRet (dirStep n a ty1).dir ty1 cur (some [m]) a.array.isSome = .ok (cur, w)
+      ∧ (w = true ∨ validateList Gen.ParamAnn.paramValidate (G "transfer") [m] = 1) := by
   rw [hr]
   have hF : G Gen.ParamAnn.optTransferFloating = G "floating" := rfl
   have hC : G Gen.ParamAnn.optTransferContainer = G "container" := rfl
-  rcases hm with rfl | rfl | hm
-  · simp only [Valid, siteOf, if_true] at hv
-    have := transferStep_floating false (dirStep n a ty1).dir ty1 cur a.array.isSome
-    rw [hF, hv] at this
-    simpa using this
-  · have hcf : ¬ (G "container" = G "floating") := by decide
-    simp only [Valid, siteOf, if_neg hcf, if_true] at hv
-    have := transferStep_container false (dirStep n a ty1).dir ty1 cur a.array.isSome
-    rw [hC, hv] at this
-    simpa using this
-  · have hf : m ≠ G "floating" := by rcases hm with rfl | rfl <;> decide
-    have hc : m ≠ G "container" := by rcases hm with rfl | rfl <;> decide
-    simp only [Valid, siteOf, if_neg hf, if_neg hc, if_pos hm] at hv
-    have := transferStep_other false (dirStep n a ty1).dir ty1 cur a.array.isSome m p1
-      (by rw [hF]; exact hf) (by rw [hC]; exact hc) hp1
-    rw [this]
-    have hcond : (!p1 && !nodeTypeIsString ty1 && !ty1.isContainer && !isCompoundLike ty1.cls) = true := by
-      revert hv
-      generalize nodeTypeIsString ty1 = s1
-      generalize ty1.isContainer = s2
-      generalize isCompoundLike ty1.cls = s3
-      clear hp1 this
-      cases p1 <;> cases s1 <;> cases s2 <;> cases s3 <;> simp
-    rw [hcond]
-    rfl
+  cases hk : knownTransfer m with
+  | false =>
+    exact ⟨false, transferStep_unknown false _ ty1 cur _ m hk, Or.inr (validate_transfer_unknown m hk)⟩
+  | true =>
+    refine ⟨true, ?_, Or.inl rfl⟩
+    have hm := knownTransfer_cases m hk
+    rcases hm with rfl | rfl | hm
+    · simp only [Valid, siteOf, if_true] at hv
+      have := transferStep_floating false (dirStep n a ty1).dir ty1 cur a.array.isSome
+      rw [hF, hv] at this
+      simpa using this
+    · have hcf : ¬ (G "container" = G "floating") := by decide
+      simp only [Valid, siteOf, if_neg hcf, if_true] at hv
+      have := transferStep_container false (dirStep n a ty1).dir ty1 cur a.array.isSome
+      rw [hC, hv] at this
+      simpa using this
+    · have hf : m ≠ G "floating" := by rcases hm with rfl | rfl <;> decide
+      have hc : m ≠ G "container" := by rcases hm with rfl | rfl <;> decide
+      simp only [Valid, siteOf, if_neg hf, if_neg hc, if_pos hm] at hv
+      have := transferStep_other false (dirStep n a ty1).dir ty1 cur a.array.isSome m p1 hk
+        (by rw [hF]; exact hf) (by rw [hC]; exact hc) hp1
+      rw [this]
+      have hcond : (!p1 && !nodeTypeIsString ty1 && !ty1.isContainer && !isCompoundLike ty1.cls) = true := by
+        revert hv
+        generalize nodeTypeIsString ty1 = s1
+        generalize ty1.isContainer = s2
+        generalize isCompoundLike ty1.cls = s3
+        clear hp1 this
+        cases p1 <;> cases s1 <;> cases s2 <;> cases s3 <;> simp
+      rw [hcond]
+      rfl
+
+/-- **An unknown scope word on a callback parameter** (`(scope bogus)`): the parser reports it and the
+    callback step leaves the callable exactly as it was — no scope is written. -/
+theorem C01_invalid_warns_unchanged_scope (c : Callable) (i : Nat) (part : Str) (s : Str) (p : Node)
+    (hp : c.getAll? i = some p) (hcb : isCallbackCls p.ty.cls = true)
+    (hs : Gen.ParamAnn.scopeOptions.any (fun o => G o == s) = false) :
+    callbackStep c i part (some { scope := some [s] }) = .ok (c, [])
+    ∧ validateList Gen.ParamAnn.paramValidate (G "scope") [s] = 1 := by
+  constructor
+  · unfold callbackStep
+    simp [hp, hcb, hs, bind, Except.bind, pure, Except.pure]
+  · have hr : findRow Gen.ParamAnn.paramValidate (G "scope") =
+        some ("scope", "generic", some 1, none, none, some Gen.ParamAnn.scopeOptions) := by rfl
+    simp [validateList, hr, validateGeneric, hs]
 
 /-- **(scope)/(closure)/(destroy) on a parameter that is no callback**: one warning per annotation,
     nothing changes — no scope, no closure, no destroy, no other parameter touched. -/
@@ -522,11 +550,6 @@ theorem C01_pointer_test_counterexample :
     (isPointerType false .in_ enumByValue).toOption = some true ∧ (isPointerType false .in_ aliasPtr).toOption = some false := by
   decide
 
-/-- an unknown transfer mode is written to the GIR (the parser has warned, the transformer does not check) -/
-theorem C01_unknown_transfer_counterexample :
-    (transferStep false .in_ objPtr (some (G "none")) (some [G "bogus"]) false).toOption = some (some (G "bogus"), false) := by
-  decide
-
 /-- pass 3 overwrites an explicit `(closure x)` with the autodetected `data` -/
 theorem C01_closure_overridden_counterexample :
     let ps : List Node := [{ name := G "cb", ty := cbTy, closure := some (G "x") }, { name := G "data", ty := anyTy },
@@ -608,6 +631,24 @@ example :
     let c : Callable := { kind := .function, params := [{ name := G "n" }, { name := G "arr", dir := .out }] }
     ((applyLenEffect c ⟨G "n", .out⟩).params.map (fun p => (p.dir, p.transfer)))
       = [(.out, some (G "full")), (.out, none)] := by decide
+
+/-- `(transfer bogus)` on `FooObj *p`: rejected by the rule table, reported by the parser, transfer unchanged -/
+example :
+    Valid (.transfer (G "bogus")) (siteOf exNode { transfer := some [G "bogus"] } objPtr true true) = false
+    ∧ (transferStep false .in_ objPtr (some (G "none")) (some [G "bogus"]) false).toOption = some (some (G "none"), false)
+    ∧ validateList Gen.ParamAnn.paramValidate (G "transfer") [G "bogus"] = 1 := by decide
+
+/-- `(scope bogus)` on a callback parameter: no scope is written -/
+example :
+    let c : Callable := { kind := .function, params := [{ name := G "cb", ty := cbTy }] }
+    ((callbackStep c 0 (G "cb") (some { scope := some [G "bogus"] })).toOption.map fun r => r.1.params.map (·.scope))
+      = some [none] := by decide
+
+/-- `Returns: (array length=n)` on a signal: the writer finds the index of `n` -/
+example :
+    let arr : Ty := .array (G "C") objPtr false none (some (G "n")) { ctype := some (G "FooObj**") }
+    let c : Callable := { kind := .signal, params := [{ name := G "a" }, { name := G "n" }], ret := { isRet := true, ty := arr } }
+    ((writeReturn (G "Foo") c).toOption.map fun x => x.ty.attrs.contains (G "length", G "1")) = some true := by decide
 
 example : validateList Gen.ParamAnn.tagValidate (G "scope") [G "call"] = 1 := by decide
 example : validateList Gen.ParamAnn.paramValidate (G "transfer") [G "bogus"] = 1 := by decide
